@@ -486,7 +486,7 @@ def fmt(t, depth=0):
     if k == "cast":
         return "(%s as %s)" % (_F(t[2]), t[1])
     if k == "field":
-        return "%s.%d" % (_F(t[1]), t[2])
+        return "%s.%s" % (_F(t[1]), t[2])
     if k == "deref":
         return "*%s" % _F(t[1])
     if k == "deref*":
